@@ -335,6 +335,22 @@ M("C07", "bloom-len-clamped", (BF, "        (-m / k * (1. - x / m).ln()) as usiz
 M("C07", "bloom-len-without-k", (BF, "        (-m / k * (1. - x / m).ln()) as usize", "        (-m * (1. - x / m).ln()) as usize"), "R07-len-estimator", "len")
 B("C07", "bloom-len-reassociated", (BF, "        (-m / k * (1. - x / m).ln()) as usize", "        let fill = x / m;\n        (-(m * (1. - fill).ln()) / k) as usize"))
 
+# ======================================================================================= rounds 8/9 additions (helpers dissolved or re-signed)
+M("C13", "v43-next-slot-wraps-late", (QF, "    if pos + 1 == len {\n        0", "    if pos == len {\n        0"), "R13-scan", "scan", base="benign/B43/patch.diff")
+M("C13", "v43-prev-slot-wraps-to-len", (QF, "        0 => len - 1,\n        _ => pos - 1,", "        0 => len,\n        _ => pos - 1,"), "R13-scan", "scan", base="benign/B43/patch.diff")
+M("C13", "v43-tuple-position-is-quotient", (QF, "                return (true, s, Some(start_of_run));", "                return (true, quotient, Some(start_of_run));"), "R13-scan-results", "scan", base="benign/B43/patch.diff")
+M("C13", "v43-at-start-compares-quotient", (QF, "let at_start_of_run = start_of_run == Some(start);", "let at_start_of_run = start_of_run == Some(quotient);"), "R13-swap-chain", "insert_internal", base="benign/B43/patch.diff")
+M("C12", "v43-union-no-rollback-on-err", (QF, "        if result.is_err() {\n            // roll back to the state before the union\n            self.is_occupied = is_occupied_backup;", "        if result.is_ok() {\n            // roll back to the state before the union\n            self.is_occupied = is_occupied_backup;"), "R12-restore", "union", base="benign/B43/patch.diff")
+M("C12", "v44-replay-oldest-first", (CF, "            while let Some((pos, data)) = log.pop() {\n                self.table.set(pos as u64, data);\n            }", "            while !log.is_empty() {\n                let (pos, data) = log.remove(0);\n                self.table.set(pos as u64, data);\n            }"), "R12-replay-helper", "insert", base="benign/B44/patch.diff")
+M("C12", "v44-replay-skips-free-slots", (CF, "            while let Some((pos, data)) = log.pop() {\n                self.table.set(pos as u64, data);\n            }", "            while let Some((pos, data)) = log.pop() {\n                if data != 0 {\n                    self.table.set(pos as u64, data);\n                }\n            }"), "R12-replay-helper", "insert", base="benign/B44/patch.diff")
+M("C01", "v44-alternate-bucket-of-other-fingerprint", (CF, "        let i2 = i1 ^ self.hash(&f);\n        (f, i1, i2)", "        let i2 = i1 ^ self.hash(&(f + 1));\n        (f, i1, i2)"), "R01-cuckoo-home", "start", base="benign/B44/patch.diff")
+M("C07", "v44-inline-fingerprint-can-be-zero", (CF, "        let f = 1 + (hasher.finish() % x_mod);", "        let f = hasher.finish() % (x_mod + 1);"), "R07-fingerprint-nonzero", "start", base="benign/B44/patch.diff")
+M("C16", "v46-inline-fuse-mixes-fields", (TD, "                    sum: current.sum + next.sum,", "                    sum: current.sum + next.count,"), "R16-conservation", "merge", base="benign/B46/patch.diff")
+M("C08", "v48-closure-h-same-iv", (HU, "        let h2 = h_i(1) % m;", "        let h2 = h_i(0) % m;"), "R08-double-hashing", "iter_for", base="benign/B48/patch.diff")
+M("C07", "v48-closure-h-iv-after-object", (HU, "            hasher.write_usize(i);\n            obj.hash(&mut hasher);\n            hasher.finish()", "            obj.hash(&mut hasher);\n            hasher.finish() ^ (i as u64)"), "R07-double-hashing", "iter_for", base="benign/B48/patch.diff")
+M("C11", "lossy-prune-skipped-for-known", (LC, "                value.f += 1;\n                false\n            }", "                value.f += 1;\n                return false;\n            }"), "R09-prune", "add")
+M("C03", "v39-cursor-assert-too-strong", (HLL, "            debug_assert!(idx <= idx_last);", "            debug_assert!(idx < idx_last);"), "R03-panic-census", "", base="benign/B39/patch.diff")
+
 
 def main():
     out = os.path.join(os.path.dirname(os.path.abspath(__file__)), "corpus.json")
